@@ -99,6 +99,33 @@ func failFastScenario(r *hx.Rng, id int) *scenario {
 	return sc
 }
 
+// tryAgainScenario: two keys of one tag and a three-key DEL in the middle of a batch while their slot is in migration with
+// not all of the keys present at the old owner: the node answers TRYAGAIN to the DEL and has the commands behind it in hand
+func tryAgainScenario(r *hx.Rng, id int) *scenario {
+	sc := &scenario{id: id, mode: []string{"batch", "txn", "pipeline", "txnpipe"}[r.Intn(4)], start: int64(100 + r.Intn(900)), batch: 3 + r.Intn(3), slowNode: -1, failNode: -1}
+	tag := fmt.Sprintf("q%d", r.Intn(4000))
+	for fakeredis.HashSlot([]byte("{"+tag+"}k0"))*3/16384 != 0 { // (a transactional link writes to one shard: node 0)
+		tag = fmt.Sprintf("q%d", r.Intn(4000))
+	}
+	sc.keys = [][]byte{[]byte("{" + tag + "}k0"), []byte("{" + tag + "}k1")}
+	n := 6 + r.Intn(5)
+	for i := 0; i < n; i++ {
+		if i == 2 || (i > 4 && r.Chance(20)) {
+			sc.cmds = append(sc.cmds, srcCmd{name: "del", args: [][]byte{sc.keys[0], sc.keys[1], []byte(fmt.Sprintf("{%s}none%d", tag, i+1))}, key: 0, keys: []int{0, 1}})
+			continue
+		}
+		k := 0
+		if r.Chance(25) {
+			k = 1
+		}
+		sc.cmds = append(sc.cmds, srcCmd{name: "rpush", args: [][]byte{sc.keys[k], []byte(fmt.Sprintf("v%d", i+1))}, key: k, keys: []int{k}})
+	}
+	at := r.Intn(3)
+	dst := 1 + r.Intn(2)
+	sc.steps = []migStep{{at: at, kind: "begin", key: 0, dst: dst}, {at: at + 1 + r.Intn(3), kind: "moveone", key: 0}, {at: at + 6 + r.Intn(6), kind: "finish", key: 0}}
+	return sc
+}
+
 // coldMoveScenario: pipelined replay, a hot key whose slot never moves and a cold key on another node whose slot is handed over
 // early: the MOVED answer makes the client refresh its slot map while batches of the hot key are in flight on a slow connection
 func coldMoveScenario(r *hx.Rng, id int) *scenario {
@@ -370,7 +397,11 @@ func runScenario(sc *scenario, tr *hx.Trace) int {
 			keysOf[i] = append(keysOf[i], k+1)
 		}
 	}
-	tr.Emit(map[string]interface{}{"ev": "Reset", "id": sc.id, "mode": sc.mode, "txn": txn, "pipe": pipe, "keysOf": keysOf, "nkeys": len(sc.keys), "batch": sc.batch, "steps": len(sc.steps)})
+	slotOf := make([]int, len(sc.keys)) // keys of one tag share a slot: a hand-over of one is a hand-over of the other
+	for i, k := range sc.keys {
+		slotOf[i] = fakeredis.HashSlot(k)
+	}
+	tr.Emit(map[string]interface{}{"ev": "Reset", "id": sc.id, "mode": sc.mode, "txn": txn, "pipe": pipe, "keysOf": keysOf, "slotOf": slotOf, "nkeys": len(sc.keys), "batch": sc.batch, "steps": len(sc.steps)})
 	logBase := len(cs.LogMerged())
 
 	// project the cluster-wide execution log onto source indices
@@ -574,6 +605,8 @@ func main() {
 		sc := genScenario(r, s+1+*idBase, *maxCmds)
 		if *hot > 0 && s%*hot == 1 && s%(2**hot) == 1 {
 			sc = failFastScenario(r, s+1+*idBase)
+		} else if *hot > 0 && s%*hot == 2 && s%(2**hot) == 2 {
+			sc = tryAgainScenario(r, s+1+*idBase)
 		} else if *hot > 0 && s%*hot == 0 && s%(2**hot) != 0 {
 			sc = coldMoveScenario(r, s+1+*idBase)
 		} else if *hot > 0 && s%*hot == 0 {
